@@ -903,9 +903,11 @@ class TreeTransform(Generic[TreeFnT]):
     if agg_only:
       transforms = [t for t in transforms if t.agg_fns]
     runners = []
-    for transform in transforms:
+    for i, transform in enumerate(transforms):
+      # Only the first transform of the chain can own the data source that the
+      # shard applies to, the others consume their predecessor's output.
       runner = TransformRunner.from_transform(
-          transform, agg_only=agg_only, input_state=shard
+          transform, agg_only=agg_only, input_state=shard if i == 0 else None
       )
       runners.append(runner)
     return ChainedRunner(runners)
